@@ -217,3 +217,25 @@ Definition tie_state_b : bool :=
   && slist_eqb gen_evaluator_fields ["root:any"]
   && forallb (fun s => match String.index 0 "=errors.New()" s with Some _ => true | None => String.eqb s "internal/parser/visitor.go:indentBytes=[]byte()" end) gen_globals.
 Lemma tie_state : tie_state_b = true. Proof. vm_compute. reflexivity. Qed.
+
+(* 9. every statement that writes through a slice, map, pointer or struct field
+   targets an object allocated in the same function, a field of a per-call
+   struct, or the token out-parameter of the Lexer methods (which the parser points at
+   its own per-call struct); sort helper structs are built from fresh slices.
+   This is the premise of the frame and non-interference theorems (C06, C07). *)
+Definition ends_with (suffix s : string) : bool :=
+  let ls := String.length s in let lx := String.length suffix in
+  if Nat.ltb ls lx then false else String.eqb (substring (ls - lx) lx s) suffix.
+Definition starts_with (p s : string) : bool := String.eqb (substring 0 (String.length p) s) p.
+Definition write_site_ok (s : string) : bool :=
+  ends_with "=fresh" s || ends_with "=percall" s
+  || (ends_with "=ptrparam:t" s && starts_with "internal/lexer/lexer.go:Lexer." s).
+Definition tie_writes_b : bool :=
+  forallb write_site_ok gen_write_sites && Nat.ltb 50 (List.length gen_write_sites).
+Lemma tie_writes : tie_writes_b = true. Proof. vm_compute. reflexivity. Qed.
+
+(* 10. every public error type answers Is for exactly one sentinel (one entry per type) *)
+Fixpoint snodup (l : list string) : bool :=
+  match l with [] => true | x :: r => negb (existsb (String.eqb x) r) && snodup r end.
+Definition tie_one_category_b : bool := snodup (map (fun s => fst (split_arrow s)) gen_public_is).
+Lemma tie_one_category : tie_one_category_b = true. Proof. vm_compute. reflexivity. Qed.
